@@ -6,7 +6,7 @@ AES); seeded random values over the full ranges are added; a sample goes through
 and requires result = PyValue(Denote(varbind)) and key = OidToText(name)."""
 import json, random, struct
 from vlib import env, tlc, trace, corpus, rawdrv, agent as ag, refcodec as rc, scripts, sesscheck, apiscripts
-from vlib.report import Check, confirm_by_replay
+from vlib.report import Check, confirm_by_replay, timing_event
 from vlib.env import ToolError, SEED
 
 BASE = [1, 3, 6, 1, 4, 1, 9999]
@@ -243,7 +243,7 @@ def run(tier):
         sig["ev"] = ev["ev"]
         got = ev.get("exc") or "value"
         chk.violation(sig, "%s %s via %s/%s: tlv=%s got %s %s" % (info["vt"], sig["form"], info["cfg"], info["op"], bytes(info["tlv"]).hex()[:60], got, json.dumps(ev.get("res"))[:120]),
-                      dict(info=info, events=rec.events[a:idx + 1]), confirm=confirm_by_replay(replay, dict(info=info, events=[])) if "api" in info else None)
+                      dict(info=info, events=rec.events[a:idx + 1]), confirm=(confirm_by_replay(replay, dict(info=info, events=[])) if ("api" in info and timing_event(ev)) else None))
     chk.sample(dict(kind="corpus-value", value=cvals[7]))
     chk.sample(dict(kind="events", events=rec.events[runs[5][0]:runs[5][1]]))
     chk.assumptions += ["REAL rounding (decimal forms, >53-bit mantissas) interpreted by CPython float / fractions",
